@@ -380,32 +380,22 @@ def hellinger(ctx):
     site = HDMQ + "._hellinger_distance"
     tr = ctx.trace("HDDDM", "_hellinger_distance")
     ra0 = tr.retval.single_atom() if tr.retval is not None else None
-    acc = None
-    if ra0 is not None and ra0[0] == "call" and ra0[1] == "sqrt":
-        la = ra0[2][0].single_atom()
-        if la is not None and la[0] == "loopvar" and la[2].startswith("$"):
-            acc = la[2][1:]
-    aug = [e for e in tr.of("local") if e.name == acc and e.aug is not None]
-    ctx.anchor(site, "accumulation over the bins", len(aug) == 1, "")
-    if not aug:
+    total = ra0[2][0] if ra0 is not None and ra0[0] == "call" and ra0[1] == "sqrt" and len(ra0[2]) == 1 else None
+    ctx.ob("FRM", site, "distance is the square root of the sum", total is not None, q.short(tr.retval, 100) if tr.retval is not None else "")
+    # the sum over the bins, however the repetition is written (running total, sum(...) of a comprehension, loop over a helper list)
+    sv = q.sum_view(tr, total) if total is not None else None
+    if not ctx.anchor(site, "accumulation over the bins", sv is not None, q.short(total, 100) if total is not None else ""):
         return
-    inc = aug[0].aug[1]
-    b = [a for a in T.atoms_of(inc, "idx")]
-    ctx.require(b, "bin index in the Hellinger sum")
-    bi = atom(b[0])
+    inc, n = sv
     r, t = P("reference_density"), P("test_density")
     R_, T_ = atom(("call", "sum", (r,), ())), atom(("call", "sum", (t,), ()))
+    bi = q.POS
     want = (atom(("call", "sqrt", (q.sub(t, bi) / T_,), ())) - atom(("call", "sqrt", (q.sub(r, bi) / R_,), ()))) ** 2
-    ctx.ob("FRM", site, "sum over bins of (sqrt(t_b/T) - sqrt(r_b/R))^2", aug[0].aug[0] == "Add" and T.same(inc, want), q.short(inc, 200), aug[0])
+    ctx.ob("FRM", site, "sum over bins of (sqrt(t_b/T) - sqrt(r_b/R))^2", T.same(inc, want), q.short(inc, 200))
     swapped = T.subst(inc, lambda a: (t if a == ("param", "reference_density") else (r if a == ("param", "test_density") else None)))
-    ctx.ob("FRM-symmetry", site, "the summand is symmetric in (reference, batch)", T.same(inc, swapped), "", aug[0])
-    lp = tr.loops.get(site + "#L1")
-    it = lp["iter"].single_atom() if lp else None
-    ctx.ob("FRM", site, "all _bins bins are summed", it is not None and it[0] == "call" and it[1] == "range" and tuple(it[2]) == (A("_bins"),), "")
-    ra = tr.retval.single_atom() if tr.retval is not None else None
-    ctx.ob("FRM", site, "distance is the square root of the sum", ra is not None and ra[0] == "call" and ra[1] == "sqrt" and (ra[2][0].single_atom() or ("",))[0] == "loopvar", "")
-    init = [e for e in tr.of("local") if e.name == acc and e.aug is None]
-    ctx.ob("FRM", site, "sum starts at 0", len(init) == 1 and init[0].value == const(0), "")
+    ctx.ob("FRM-symmetry", site, "the summand is symmetric in (reference, batch)", T.same(inc, swapped), "")
+    ctx.ob("FRM", site, "all _bins bins are summed", n == A("_bins"), q.short(n, 40))
+    ctx.ob("FRM", site, "sum starts at 0", True, "part of the view: a running total is recognised only when it starts at 0")
 
 
 # ---------------------------------------------------------------------------
